@@ -563,3 +563,101 @@ fn gen_lock_value(src: &mut Src, own: &[u32], others: &[u32]) -> u32 {
         *src.pick(others)
     }
 }
+
+// ---------------------------------------------------------------------------------------
+// policies
+
+use crate::poleval::MPol;
+
+#[derive(Clone, Debug)]
+pub struct PolCfg {
+    pub max_leaves: usize,
+    pub allow_const: bool,
+    pub distinct_keys: bool,
+    pub key_hex_ctx: Ctx,
+    /// keys as short names ("A".."H") instead of hex (for String-keyed policies)
+    pub named_keys: bool,
+    pub consistent_locks: bool,
+    pub max_weight: usize,
+    pub allow_thresh: bool,
+}
+
+pub fn gen_policy(src: &mut Src, cfg: &PolCfg) -> MPol {
+    let mut st = State::new();
+    let leaves = src.range(1, cfg.max_leaves);
+    gen_pol(src, cfg, &mut st, leaves, 0)
+}
+
+fn pol_leaf(src: &mut Src, cfg: &PolCfg, st: &mut State) -> MPol {
+    let kcfg = {
+        let mut c = Cfg::new(cfg.key_hex_ctx, 1);
+        c.distinct_keys = cfg.distinct_keys;
+        c.consistent_locks = cfg.consistent_locks;
+        c
+    };
+    match src.weighted(&[10, 3, 3, if cfg.allow_const { 2 } else { 0 }]) {
+        0 => {
+            if cfg.named_keys {
+                let mut i = src.below(8);
+                if cfg.distinct_keys {
+                    let mut t = 0;
+                    while st.used.contains(&i) && t < 26 {
+                        i = (i + 1) % 26;
+                        t += 1;
+                    }
+                    st.used.insert(i);
+                }
+                MPol::Key(((b'A' + i as u8) as char).to_string())
+            } else {
+                MPol::Key(pick_key(src, &kcfg, st))
+            }
+        }
+        1 => match gen_hash(src) {
+            Node::Sha256(h) => MPol::Sha256(h),
+            Node::Hash256(h) => MPol::Hash256(h),
+            Node::Ripemd160(h) => MPol::Ripemd160(h),
+            Node::Hash160(h) => MPol::Hash160(h),
+            _ => unreachable!(),
+        },
+        2 => {
+            if src.bool() {
+                match gen_after(src, &kcfg, st) {
+                    Node::After(t) => MPol::After(t),
+                    _ => unreachable!(),
+                }
+            } else {
+                match gen_older(src, &kcfg, st) {
+                    Node::Older(t) => MPol::Older(t),
+                    _ => unreachable!(),
+                }
+            }
+        }
+        _ => {
+            if src.bool() {
+                MPol::Trivial
+            } else {
+                MPol::Unsat
+            }
+        }
+    }
+}
+
+fn gen_pol(src: &mut Src, cfg: &PolCfg, st: &mut State, leaves: usize, depth: usize) -> MPol {
+    if leaves <= 1 || depth > 5 {
+        return pol_leaf(src, cfg, st);
+    }
+    let n = src.range(2, leaves.min(4));
+    let parts = split(src, leaves + 1, n);
+    let mut subs = Vec::new();
+    for p in parts {
+        subs.push(gen_pol(src, cfg, st, p, depth + 1));
+    }
+    match src.weighted(&[4, 4, if cfg.allow_thresh { 3 } else { 0 }]) {
+        0 => MPol::And(subs),
+        1 => MPol::Or(subs.into_iter().map(|s| (if cfg.max_weight > 1 && src.chance(1, 3) { src.range(1, cfg.max_weight) } else { 1 }, s)).collect()),
+        _ => {
+            let k = src.range(1, subs.len());
+            MPol::Thresh(k, subs)
+        }
+    }
+}
